@@ -29,6 +29,8 @@ type c15Case struct {
 	// PerTemplate: the options are set on the compiled root template (tpl.Options) instead of on
 	// the set; the hand-stripped reference is compiled in the SAME set and keeps the defaults
 	PerTemplate bool `json:"per_template,omitempty"`
+	// UsedSet: the set compiled and rendered the same files before, with the opposite options
+	UsedSet bool `json:"used_set,omitempty"`
 }
 
 const c15WS = " \t\r\n"
@@ -37,6 +39,10 @@ func (t c15Tok) marked() string {
 	switch t.Kind {
 	case "text":
 		return t.Src
+	case "verb":
+		// a verbatim block: its tags take no markers, its body is nobody's literal text - neither
+		// a neighbour's '-' nor an option touches it
+		return "{% verbatim %}" + t.Src + "{% endverbatim %}"
 	case "var":
 		s := "{{"
 		if t.L {
@@ -64,6 +70,8 @@ func (t c15Tok) plain() string {
 	switch t.Kind {
 	case "text":
 		return t.Src
+	case "verb":
+		return "{% verbatim %}" + t.Src + "{% endverbatim %}"
 	case "var":
 		return "{{ " + t.Src + " }}"
 	default:
@@ -125,11 +133,17 @@ func c15Context(variant int) pongo2.Context {
 		"flag":  variant%2 == 0,
 		"items": [][]string{{"a", " b "}, {}, {"\n", "c", "d"}}[variant%3],
 		"name":  " N ",
+		// names of includable files, for includes by a computed name
+		"lz1": "/inc1.tpl", "lz2": "/inc2.tpl", "lz3": "/inc3.tpl", "lz4": "/inc4.tpl", "lz5": "/inc5.tpl", "lz6": "/inc6.tpl", "lz7": "/inc7.tpl", "lz8": "/inc8.tpl", "lz9": "/inc9.tpl",
 	}
 }
 
 func c15Render(files map[string]string, trim, lstrip bool, ctx pongo2.Context) (string, error) {
-	set := pongo2.NewSet("c15", newMemLoader(files))
+	return c15RenderOn(pongo2.NewSet("c15", newMemLoader(files)), trim, lstrip, ctx)
+}
+
+// c15RenderOn: the set may have been used before, with other options
+func c15RenderOn(set *pongo2.TemplateSet, trim, lstrip bool, ctx pongo2.Context) (string, error) {
 	set.Options.TrimBlocks = trim
 	set.Options.LStripBlocks = lstrip
 	tpl, err := set.FromFile("/root.tpl")
@@ -161,7 +175,17 @@ func checkC15(c any, r *Rec) error {
 	if cs.PerTemplate {
 		return c15PerTemplate(cs, r, removed, survived)
 	}
-	got, err1 := c15Render(marked, cs.Trim, cs.LStrip, ctx)
+	var got string
+	var err1 error
+	if cs.UsedSet {
+		// one set whose options are switched between the compilations: the document was compiled
+		// and rendered with the opposite settings before
+		set := pongo2.NewSet("c15used", newMemLoader(marked))
+		_, _ = c15RenderOn(set, !cs.Trim, !cs.LStrip, c15Context(cs.Variant))
+		got, err1 = c15RenderOn(set, cs.Trim, cs.LStrip, ctx)
+	} else {
+		got, err1 = c15Render(marked, cs.Trim, cs.LStrip, ctx)
+	}
 	want, err2 := c15Render(plain, false, false, c15Context(cs.Variant))
 	if err2 != nil {
 		return skipf("hand-stripped variant does not render: %v", err2)
@@ -236,7 +260,7 @@ func (g *c15Gen) seq(depth int, out *[]c15Tok) {
 	}
 	addText()
 	for i := 0; i < n; i++ {
-		k := pick(g.t, "construct", []string{"var", "var", "if", "for", "with", "set", "include"})
+		k := pick(g.t, "construct", []string{"var", "var", "if", "for", "with", "set", "include", "verb"})
 		if depth <= 0 && (k == "if" || k == "for" || k == "with" || k == "include") {
 			k = "var"
 		}
@@ -263,6 +287,8 @@ func (g *c15Gen) seq(depth int, out *[]c15Tok) {
 			*out = append(*out, g.tag("tag", "with a=v"))
 			g.seq(depth-1, out)
 			*out = append(*out, g.tag("tag", "endwith"))
+		case "verb":
+			*out = append(*out, c15Tok{Kind: "verb", Src: pick(g.t, "verbbody", []string{"  vb  ", "\nvb\n", " ", "\t{{ x }} \n", "vb", "\n\n"})})
 		case "set":
 			*out = append(*out, g.tag("tag", "set s = 1"))
 		case "include":
@@ -272,7 +298,7 @@ func (g *c15Gen) seq(depth int, out *[]c15Tok) {
 			g.seq(depth-1, &sub)
 			g.files[name] = sub
 			// (by whichever tag the file is pulled in: its whitespace is controlled like the root's)
-			*out = append(*out, g.tag("tag", pick(g.t, "incvia", []string{`include "` + name + `"`, `include "` + name + `"`, `ssi "` + name + `" parsed`, `include "` + name + `" with q=1`, `include "` + name + `" if_exists`})))
+			*out = append(*out, g.tag("tag", pick(g.t, "incvia", []string{`include "` + name + `"`, `include "` + name + `"`, `ssi "` + name + `" parsed`, `include "` + name + `" with q=1`, `include "` + name + `" if_exists`, fmt.Sprintf("include lz%d", g.n)})))
 		}
 		addText()
 	}
@@ -280,7 +306,7 @@ func (g *c15Gen) seq(depth int, out *[]c15Tok) {
 
 var _ = register(&propSpec{
 	ID:   "C15.doc",
-	Rule: "documents (optionally with files pulled in by include - plain, with a pair, if_exists - or ssi parsed, or a two- or three-level extends hierarchy in which every level contributes text) = constructs ({{ v }}, if/else, for/empty, with, set, include) separated by literal text with random runs of space/tab/CR/LF (also at BOF/EOF, between adjacent constructs, around embedded {# #}); every delimiter independently carries '-'; all four TrimBlocks x LStripBlocks settings; context values contain whitespace themselves. Oracle: byte-identical to the hand-stripped document compiled with all options off. Non-trivial: >= 1 whitespace run removed and >= 1 surviving; distinct by marked sources+options.",
+	Rule: "documents (optionally with files pulled in by include - plain, with a pair, if_exists - or ssi parsed, or a two- or three-level extends hierarchy in which every level contributes text) = constructs ({{ v }}, if/else, for/empty, with, set, include, verbatim blocks whose body is whitespace-rich and must come out untouched whatever stands next to them) separated by literal text with random runs of space/tab/CR/LF (also at BOF/EOF, between adjacent constructs, around embedded {# #}); every delimiter independently carries '-'; all four TrimBlocks x LStripBlocks settings (in a quarter of the cases on a set that compiled and rendered the same files with the opposite settings before); context values contain whitespace themselves. Oracle: byte-identical to the hand-stripped document compiled with all options off. Non-trivial: >= 1 whitespace run removed and >= 1 surviving; distinct by marked sources+options.",
 	Gen: func(t *rapid.T) any {
 		g := &c15Gen{t: t, files: map[string][]c15Tok{}}
 		var root []c15Tok
@@ -323,7 +349,7 @@ var _ = register(&propSpec{
 		g.files["/root.tpl"] = root
 		// per-template options only for single-file documents: whether a template's own options reach
 		// what it includes or extends is not something the property states
-		return &c15Case{Files: g.files, Trim: drawBool(t, "trim"), LStrip: drawBool(t, "lstrip"), Variant: drawInt(t, 0, 11, "variant"), PerTemplate: len(g.files) == 1 && drawInt(t, 0, 1, "pertemplate") == 0}
+		return &c15Case{Files: g.files, Trim: drawBool(t, "trim"), LStrip: drawBool(t, "lstrip"), Variant: drawInt(t, 0, 11, "variant"), PerTemplate: len(g.files) == 1 && drawInt(t, 0, 1, "pertemplate") == 0, UsedSet: drawInt(t, 0, 3, "usedset") == 0}
 	},
 	New:   func() any { return &c15Case{} },
 	Check: checkC15,
